@@ -106,6 +106,21 @@ def run(tier):
         meta.append(('no-options', text))
         cases.append({'expr_text': text, 'globals': {}, 'log': False})
         meta.append(('bare-options', text))
+    # (6) includes in DEBUG mode (the included script is linted, outside any handler): unusual but legal function headers, lint findings
+    inc_texts = ["function anyArgs(...):\n    return 1\nendfunction\nfunction bb(x...):\n    return x\nendfunction\nasync function cc():\nendfunction\nzz = anyArgs(1, 2)\n",
+                 "function uu(a, a, b):\n    c = 1\n    jump nowhere\n    lbl:\n    lbl:\nendfunction\nunused = 5\n1 + 2\n",
+                 "function ff(x):\n    return x\nendfunction\nfunction ff(x):\n    return x + 1\nendfunction\n",
+                 "\n# only a comment\n", "jump away\n"]
+    for t in inc_texts:
+        for debug in (True, False):
+            cases.append({'text': "include 'inc.bare'\nsystemLog('after include')\nreturn 1\n", 'files': {'inc.bare': t}, 'globals': {}, 'debug': debug, 'max': 200})
+            meta.append(('include-debug' if debug else 'include', t))
+    # (7) a failing library call is REPORTED in debug mode - also when its failure value is not null (arrayLength -> 0, indexOf -> -1 ...)
+    for call, fv in (("arrayLength(5)", 0.0), ("stringLength(5)", 0.0), ("arrayIndexOf(5, 1)", -1.0), ("arrayLastIndexOf(5, 1)", -1.0),
+                     ("stringIndexOf(5, 'a')", -1.0), ("stringLastIndexOf(5, 'a')", -1.0), ("objectHas(5, 'a')", False), ("objectGet(5, 'a', 7)", 7.0),
+                     ("arrayGet(5, 0)", None), ("mathSqrt('x')", None)):
+        cases.append({'text': f"x = {call}\nsystemLog('after')\nreturn x\n", 'globals': {}, 'debug': True, 'max': 100})
+        meta.append(('failure-report', (call, fv)))
     # (5) generated programs on adversarial globals
     n_prog = 120 if tier == 'quick' else 1500
     for _ in range(n_prog):
@@ -142,6 +157,17 @@ def run(tier):
                     ok = ok and logs == want_log
                 if not ok:
                     chk.oracle_fail.append({'class': 'failed-call-not-null-or-not-reported', 'source': src, 'kind': what, 'got': res})
+        if tag in ('include-debug', 'include'):
+            if 'res' not in res and 'rt' not in res and 'parse' not in res:
+                chk.oracle_fail.append({'class': 'include-run-gave-neither-a-value-nor-a-script-error', 'source': what, 'entry': tag, 'got': res})
+        if tag == 'failure-report':
+            call, fv = what
+            fname = call.split('(')[0]
+            got = interp.plain_of_tree(res['res']) if 'res' in res else 'no value'
+            nrep = sum(1 for ln in res.get('log', []) if ln.startswith(f'BareScript: Function "{fname}" failed with error'))
+            if not (got == fv and type(got) is type(fv)) or nrep != 1:
+                chk.oracle_fail.append({'class': 'failed-call-not-reported-in-debug-mode-or-wrong-failure-value', 'source': call,
+                                        'expected': {'value': fv, 'reports': 1}, 'got': {'value': res.get('res') or res.get('rt'), 'log': res.get('log')}})
         if tag in ('operator', 'operator-script'):
             nontrivial.add(what)
     n_lib = 0
